@@ -10,7 +10,7 @@ Switch off with VERIF_SRCCOV=0 (the checks do not depend on it)."""
 import ast
 import os
 
-REPO = os.environ.get('VERIF_REPO', '/repo')
+REPO = (os.environ.get('VERIF_REPO') or '/repo')
 PKG = os.path.join(REPO, 'pysyncobj')
 ENABLED = os.environ.get('VERIF_SRCCOV', '1') != '0'
 
